@@ -123,6 +123,7 @@ macro_rules
       | (lhead_is frameOuter; exact Le.refl _)
       | (lhead_is getIter; exact Le.refl _)
       | (lhead_is printLine; exact Le.refl _)
+      | (lhead_is readLine; exact Le.refl _)
       | (lhead_is newIter; exact Le.refl _)
       | (lhead_is copyIter; exact Le.refl _)
       | (lhead_is repointIter; exact Le.refl _)
@@ -299,6 +300,7 @@ theorem le_nextElem : ∀ src, Le (nextElem (fuel + 1) src) (nextElem (fuel + 2)
   intro src
   cases src with
   | elems xs => cases xs <;> (rw [nextElem, nextElem]; exact Le.refl _)
+  | stdin => rw [nextElem, nextElem]; exact Le.refl _
   | iter id =>
     intro s res s' h hr
     rw [nextElem] at h ⊢
